@@ -5,7 +5,7 @@ from tools.harness import gen, corr, pcommon, shrink as shr, build, dump, observ
 PROP = "C02"
 GEN = ["gen_keys"]
 RULE = ("seeded random grammars (shared sub-expressions, backtracking alternatives with common prefixes, names, pure actions, "
-        "error stops, Forwards) x sampled/mutated inputs x cache sizes {off,0,1,2,3,16,128,unbounded} x {parse_string, "
+        "error stops, Forwards; shared elements with leave_whitespace()/ignore() reached with and without pre-parse) x sampled/mutated inputs x cache sizes {off,0,1,2,3,16,128,unbounded} x {parse_string, "
         "parse_all, scan_string}; model vs implementation in every mode AND implementation-only oracle 'every mode equals "
         "memoization off'; non-trivial = packrat run with >= 1 cache hit and a derivation of >= 3 grammar nodes; "
         "plus aliasing scenarios (actions mutating handed-out results)")
@@ -27,6 +27,25 @@ def prefix_grammar(rng):
     if shape == "opt":
         return ("and", ("opt", ("and", ("empty",), X, Y, t1)), ("and", ("empty",), X, t2))
     return (shape, ("and", X, Y, t1), ("and", X, Y, t2), ("group", ("and", X, t2)))
+
+
+ENV_WS = {0: gen.ENV0[0], 1: ("ignore", ("leavews", ("word", "ab")), ("lit", ",")), 2: ("leavews", ("word", "ab")),
+          3: ("ignore", ("word", "ab"), ("lit", ","))}
+
+
+def wsign_grammar(rng):
+    """one shared element that leaves whitespace and/or ignores ',' reached with and without pre-parse at the same location"""
+    F = ("fwd", rng.choice([1, 1, 2, 3]))
+    t1, t2 = rng.choice([("lit", "!"), ("lit", "("), ("word", "ab")]), rng.choice([("lit", "?"), ("empty",), ("lit", ")")])
+    shape = rng.choice(["mf", "or", "opt", "grp"])
+    if shape == "opt":
+        return ("and", ("opt", ("and", F, t1)), F, t2)
+    if shape == "grp":
+        return ("mf", ("group", ("and", F, t1)), ("and", ("opt", ("lit", "(")), F, t2))
+    return (shape, ("and", F, t1), F, ("and", ("empty",), F, t2))
+
+
+WS_INPUTS = [",ab", ", ab", ",ab!", " ,ab ?", "ab", " ab", ",,ab(", "ab!", ", ,ab)", "(,ab"]
 
 
 def aliasing_scenarios():
@@ -106,6 +125,9 @@ def correspond(ctx):
             inputs.add(s)
             inputs.add(gen.mutate_input(rng, s))
         groups.append((g, env, sorted(inputs)[:5], MODES, ENTRIES if i % 3 == 0 else ENTRIES[:1]))
+    for i in range(40 if not ctx.thorough else 300):
+        inputs = sorted({rng.choice(WS_INPUTS) for _ in range(4)} | {gen.mutate_input(rng, rng.choice(WS_INPUTS), "ab,! ") for _ in range(2)})
+        groups.append((wsign_grammar(rng), ENV_WS, inputs, MODES, ENTRIES if i % 3 == 0 else ENTRIES[:1]))
     # the recorded witness of the repaired defect F-02a always runs
     X = ("mf", ("lit", "a"), ("lit", "b"))
     groups.append((("and", ("opt", ("and", ("empty",), X, ("lit", "c"))), ("and", ("empty",), X)), {}, ["z", "a", "ac"], MODES, ENTRIES))
@@ -166,6 +188,8 @@ def search(ctx, reasons):
             inputs = {gen.sample_input(rng, g, env) for _ in range(3)}
             inputs |= {gen.mutate_input(rng, s) for s in list(inputs)}
             groups.append((g, env, sorted(inputs)[:5], [("none",), ("packrat", 128), ("packrat", 1)], ENTRIES[:2]))
+        for i in range(30):
+            groups.append((wsign_grammar(rng), ENV_WS, WS_INPUTS, [("none",), ("packrat", 128), ("packrat", 2)], ENTRIES[:1]))
         recs = corr.run_groups(groups, model=False)
         byk = {}
         for r in recs:
